@@ -12,6 +12,11 @@
 (*                   a stand-in pytype-single) is followed with Start/Finish; a start record is  *)
 (*                   <<"start", step, files missing when it began, the --imports_info argument   *)
 (*                   it received, the positional arguments it received>>                         *)
+(* A build statement as read back: out/input = the first output / explicit input ("" if none), *)
+(* extra = every further output, explicit input and order-only dependency (the planner writes   *)
+(* exactly one output and one input; a path that the lexer splits in two shows up here).        *)
+(* names = the directory names of the case (a member of BuildPlanOps!AdvTriples, or the plain   *)
+(* triple); fault = "" | "planner-exception" | "ninja-syntax" (build.ninja cannot be lexed).    *)
 (* Verdicts are total: BAD lines name every failing clause; DIV lines are differences between  *)
 (* the planner model's prediction and the real plan (informational).                            *)
 EXTENDS BuildPlanOps, Json, IOUtils, TLC, TLCExt
@@ -38,6 +43,7 @@ StructOf(c) == [kind |-> c.S.kind, req |-> c.S.req, grp |-> c.S.grp, gdeps |-> c
 (* every path string that occurs in the plan as it was read back *)
 PlanPaths(c) ==
   UNION {{c.plan[s].out, c.plan[s].input, c.plan[s].imports} \cup ToSet(c.plan[s].deps)
+           \cup ToSet(c.plan[s].extra)
            \cup {c.plan[s].imap[x][2] : x \in DOMAIN c.plan[s].imap} : s \in DOMAIN c.plan}
 PlanKeys(c) == UNION {{c.plan[s].imap[x][1] : x \in DOMAIN c.plan[s].imap} : s \in DOMAIN c.plan}
 
@@ -52,11 +58,17 @@ RulesOK(c) ==
   c.plan # <<>> => /\ {c.rules[x][1] : x \in DOMAIN c.rules} = {"check", "infer"}
                   /\ \A x \in DOMAIN c.rules : RuleOK(c.rules[x])
 
+UnknownPaths(c) == {p \in PlanPaths(c) : FileId(c, p) = UNKNOWN}
+(* one output, one explicit input, no order-only dependencies: what write_build_statement writes *)
+NinjaShapeOK(c) ==
+  \A s \in DOMAIN c.plan : c.plan[s].extra = <<>> /\ c.plan[s].out # "" /\ c.plan[s].input # ""
+
 StaticVerdict(c) ==
-  IF c.crash # "" THEN {"crash"}
+  IF c.crash # "" THEN {IF c.fault = "" THEN "crash" ELSE c.fault}
   ELSE LET S == StructOf(c)
            AP == AbsPlan(c)
-       IN (IF \E p \in PlanPaths(c) : FileId(c, p) = UNKNOWN THEN {"paths"} ELSE {})
+       IN (IF UnknownPaths(c) # {} THEN {"paths"} ELSE {})
+          \cup (IF NinjaShapeOK(c) THEN {} ELSE {"ninja-shape"})
           \cup (IF \E q \in PlanKeys(c) : Look(c.keys, q, 0) = 0 THEN {"keys"} ELSE {})
           \cup (IF \E s \in DOMAIN c.plan : Look(c.mods, c.plan[s].module, 0) = 0 THEN {"modname"} ELSE {})
           \cup (IF RulesOK(c) THEN {} ELSE {"rules"})
@@ -113,7 +125,11 @@ Fails ==
     (IF k = 0 THEN StaticVerdict(C) ELSE
        LET e == C.events[k] IN
        IF e[1] = "start"
-         THEN (IF e[4] # P[e[2]].imports \/ e[5] # <<P[e[2]].input>> THEN {"shell-argv"}
+         THEN (IF e[4] # P[e[2]].imports \/ e[5] # <<P[e[2]].input>>
+                 \* explained by the known shell-quoting finding only if the output directory's
+                 \* name means something to the shell ($in and $out are quoted by ninja itself)
+                 THEN (IF C.names.out \in ShellSensitiveNames THEN {"shell-argv"}
+                       ELSE {"shell-argv-unexplained"})
                ELSE IF e[3] # <<>> THEN {"rbw-observed"} ELSE {})
               \cup (IF MissingReads(P, I, done, e[2]) # {} THEN {"rbw"} ELSE {})
          ELSE {})
@@ -132,10 +148,16 @@ NinjaAgrees ==
 
 Divs == IF Live /\ k = 0 /\ started = {} THEN Divergences(C) ELSE {}
 
+(* the driver used directory names of the spec's family (machinery check) *)
+FamilyOK == (Live /\ k = 0 /\ started = {}) => C.names \in ToSet(AdvTriples) \cup {PlainTriple}
+
 Ok ==
   /\ LET f == Fails IN
        f = {} \/ PrintT(<<"BAD", ToJson([i |-> i, fails |-> f, done |-> done,
-                                        rbw |-> IF Live /\ ~Following /\ C.crash = "" THEN RBW(P, I, started, done) ELSE {}])>>)
+                                        rbw |-> IF Live /\ ~Following /\ C.crash = "" THEN RBW(P, I, started, done) ELSE {},
+                                        unknown |-> IF "paths" \in f THEN UnknownPaths(C) ELSE {},
+                                        undeclared |-> IF "undeclared-read" \in f THEN UndeclaredReads(AbsPlan(C)) ELSE {}])>>)
+  /\ FamilyOK \/ PrintT(<<"FAMILY", ToJson([i |-> i])>>)
   /\ LET d == Divs IN d = {} \/ PrintT(<<"DIV", ToJson([i |-> i, divs |-> d])>>)
   /\ NinjaAgrees \/ PrintT(<<"NINJA", ToJson([i |-> i, k |-> k])>>)
 
